@@ -256,6 +256,9 @@ class Encoder(Coder):
         # First get all the bit values for the bitmap
         if state.is_compressed:
             bitmap = state.decoded_values_all_subsets[0][state.idx_value - state.n_031031: state.idx_value]
+            if any(values[state.idx_value - state.n_031031: state.idx_value] != bitmap
+                   for values in state.decoded_values_all_subsets):
+                raise PyBufrKitError('Bitmaps from all subsets are NOT identical')
         else:
             bitmap = state.decoded_values[state.idx_value - state.n_031031: state.idx_value]
         if reuse:  # save the bitmap if it is defined for reuse
